@@ -682,6 +682,12 @@ def shard_musig_psbt(ctx: Ctx) -> None:
             keys = [pool[i] for i in idx]
             sort = rng.random() < 0.3
             pks = [x.pk for x in keys]
+            # ... but one *signer* may hold several slots of the participant list (BIP327 allows a repeated key): it makes
+            # one nonce and one partial signature, and both are counted once per slot it holds
+            if it % 5 == 4 and k >= 1:
+                for _ in range(rng.choice([1, 1, 2])):
+                    pks.insert(rng.randrange(len(pks) + 1), rng.choice(keys).pk)
+                ctx.stat("musig-psbt:repeated-participant-key")
             agg_order = sorted(pks) if sort else pks
             kac = rk.key_agg(agg_order)
             agg = rk.cbytes(kac.Q)
